@@ -145,14 +145,27 @@ def r10b(ck, fb):
 
 
 def _compare_shape(ck, h, arm, rule):
-    """in the given arm: changes.push under (Some(v) && v.md5 != item.md5) or (None && !item.md5.is_empty())"""
-    pushes = [s for s in h.calls(r'Vec::<T, A>::push$') if ('rnacos::config::core::ConfigCmd', arm) in util.variant_guards(h, s.bb)]
-    ck.require(len(pushes) == 2, rule, '%s:two-change-sources' % arm, h.where(), '%s arm has %d change pushes (expected: md5 differs, and missing key with non-empty md5)' % (arm, len(pushes)))
+    """in the given arm - or in a helper of the config module that the arm calls (extract-method) - changes.push under
+    (Some(v) && v.md5 != item.md5) or (None && !item.md5.is_empty())"""
+    fb = h.facts
+    ARM = ('rnacos::config::core::ConfigCmd', arm)
+    cands = [(h, lambda s: ARM in util.variant_guards(h, s.bb))]
+    for s in h.sites:
+        if s.callee and ARM in util.variant_guards(h, s.bb):
+            hb = fb.bodies.get(s.resolved or s.callee)
+            if hb is not None and not hb.parent and hb.name.startswith('rnacos::config::') and hb is not h:
+                cands.append((hb, lambda s: True))
+    x, flt = h, cands[0][1]
+    for (cb, cf) in cands:
+        if [s for s in cb.calls(r'Vec::<T, A>::push$') if cf(s)]:
+            x, flt = cb, cf
+            break
+    pushes = [s for s in x.calls(r'Vec::<T, A>::push$') if flt(s)]
+    ck.require(len(pushes) >= 2, rule, '%s:two-change-sources' % arm, x.where(), '%s arm has %d change pushes (expected: md5 differs, and missing key with non-empty md5)' % (arm, len(pushes)))
     kinds = set()
     for s in pushes:
-        atoms = cfg.guard_atoms(h, s.bb)
+        atoms = cfg.guard_atoms(x, s.bb)
         def on_get(a):
-            d = cfg.strip_calls(h, a[3]) if a[3]['k'] == 'call' else a[3]
             return 'HashMap' in cfg.fmt_desc(a[3])
         some = any(a[0] == 'variant' and a[2] == 'Some' and on_get(a) for a in atoms)
         none = any(a[0] == 'variant' and a[2] == 'None' and on_get(a) for a in atoms)
@@ -161,18 +174,18 @@ def _compare_shape(ck, h, arm, rule):
         if some and ne:
             a = ne[0]
             pol_changed = (a[1].endswith('ne') and a[2] is True) or (a[1].endswith('eq') and a[2] is False)
-            srcs = [cfg.origin_fields(h, x)[-1:] for x in a[3]['args']]
+            srcs = [cfg.origin_fields(x, y)[-1:] for y in a[3]['args']]
             if pol_changed and srcs == [['md5'], ['md5']]:
                 kinds.add('differs')
         if emp and none and not some:
             a = emp[0]
-            if a[2] is False and cfg.origin_fields(h, a[3]['args'][0])[-1:] == ['md5']:
+            if a[2] is False and cfg.origin_fields(x, a[3]['args'][0])[-1:] == ['md5']:
                 kinds.add('missing')
-    ck.require(kinds == {'differs', 'missing'}, rule, '%s:comparison' % arm, h.where(),
+    ck.require(kinds == {'differs', 'missing'}, rule, '%s:comparison' % arm, x.where(),
                'the %s comparison recognises %s (expected: stored md5 != held md5, and missing key with non-empty held md5)' % (arm, sorted(kinds)))
     # the stored value comes from cache.get(item.key)
-    gets = [s for s in util.mut_calls_on_field(h, 'cache', r'HashMap::<K, V, S, A>::get$') if ('rnacos::config::core::ConfigCmd', arm) in util.variant_guards(h, s.bb)]
-    ck.require(len(gets) == 1 and cfg.origin_fields(h, gets[0].args[1])[-1:] == ['key'], rule, '%s:lookup-by-item-key' % arm, h.where(), 'the comparison does not look up item.key')
+    gets = [s for s in util.mut_calls_on_field(x, 'cache', r'HashMap::<K, V, S, A>::get$') if flt(s)]
+    ck.require(len(gets) >= 1 and all(cfg.origin_fields(x, g.args[1])[-1:] == ['key'] for g in gets), rule, '%s:lookup-by-item-key' % arm, x.where(), 'the comparison does not look up item.key')
 
 
 def r10c(ck, fb):
